@@ -119,6 +119,7 @@ def serve_cases(prop, tier, seed):
         g.fam_range_multi(cb, n=200 * k, scripts=True, extra=4)
         g.fam_cond(cb, n=200 * k, long_lists=False, extra=4)
         g.fam_env(cb, n=300 * k, extra=4)
+        g.fam_huge_multipart(cb)
     # every check also runs a cross-section of all families
     g.fam_mix(cb, n=2500 * (2 if T else 1), pair=(prop == "C15"), extra=4 if prop == "C20" else 1)
     if prop in ("C01", "C03", "C06", "C13"):
@@ -203,6 +204,8 @@ def case_signature(prop, c):
         parts.append("etag=%s" % c["ent"]["etag"].get("s"))
         if c["ent"].get("mt", {}).get("k") == "t":
             parts.append("mtime=%s.%09d" % (c["ent"]["mt"].get("sr", c["ent"]["mt"]["s"]), c["ent"]["mt"]["ns"]))
+    if isinstance(c.get("hdr"), str) and len(c["hdr"]) > 300:
+        c = dict(c, hdr="%s...(%d bytes)...%s" % (c["hdr"][:60], len(c["hdr"]), c["hdr"][-30:]))
     for k in ("hdr", "cap", "ae", "level", "prog", "scripts", "sched", "rseed", "rand_cdrop", "echo", "path", "sig", "prev",
               "kind", "size", "a", "b", "mt_s", "mt_ns", "trunc", "steps", "target", "ranges", "polls"):
         if k in c:
